@@ -66,6 +66,10 @@ const (
 	c53Zone
 	c53Host
 	c53Junk // unparsable CIDR, blanks: must have no effect
+	// c53HostDotted: a host added with a trailing dot. What it matches is left open (the code
+	// trims the dot, the documentation is silent), so no dial of that name is judged; it is there
+	// because such an entry must not disturb the rules around it.
+	c53HostDotted
 )
 
 type c53Rule struct {
@@ -153,7 +157,7 @@ func TestVerif_C53(t *testing.T) {
 	defer r.Finish()
 	r.SetRule("per case one PerHost with 0-7 PRNG rules (IPv4/IPv6 literal, CIDR, *.zone, host, junk) installed through AddFromString text (blanks, empty items) or through AddIP/AddNetwork/AddZone/AddHost, default and bypass dialers with or without DialContext; dialed addresses derived from the rules (exact, subdomain, deep subdomain, parent, rule as plain string suffix without label boundary, extended last label, rule followed by another label; address itself respelled, neighbour; first/last/inside/before/after a network, other family) plus unrelated names and addresses, through Dial and DialContext; non-trivial = address derived from a rule; distinct by (rules, address, entry point)")
 	r.Assume("reference decides from the generated rule structure with net/netip")
-	r.Assume("not generated (left open by the documentation): upper/mixed-case names, trailing dots, IPv6 zones, IPv4-mapped IPv6, empty host")
+	r.Assume("not generated (left open by the documentation): upper/mixed-case names, dialed names with trailing dots (hosts ADDED with a trailing dot are generated, dials of exactly those names are not judged), IPv6 zones, IPv4-mapped IPv6, empty host")
 
 	n := r.N(6000, 300000)
 	r.CasesParallel("perhost", n, 0, func(c *verifrt.Case) {
@@ -181,6 +185,13 @@ func TestVerif_C53(t *testing.T) {
 			case k < 18:
 				h := c53Name(c, 1, 3)
 				rules = append(rules, c53Rule{kind: c53Host, name: h, text: h})
+				if rng.IntN(3) == 0 {
+					// siblings: X-something as a plain host, then X with a trailing dot
+					x := c53Name(c, 1, 1)
+					sib := x + "-" + c53Name(c, 1, 1)
+					rules = append(rules, c53Rule{kind: c53Host, name: sib, text: sib}, c53Rule{kind: c53HostDotted, name: x, text: x + "."})
+					r.Event("rules_host_with_trailing_dot_after_hyphenated_sibling", 1)
+				}
 			default:
 				rules = append(rules, c53Rule{kind: c53Junk, text: []string{"", " ", "10.0.0.0/33", "300.1.1.1/8", "foo/bar", "2001:db8::/129"}[rng.IntN(6)]})
 			}
@@ -245,6 +256,9 @@ func TestVerif_C53(t *testing.T) {
 				case c53Host:
 					ph.AddHost(ru.name)
 					how = append(how, fmt.Sprintf("AddHost(%q)", ru.name))
+				case c53HostDotted:
+					ph.AddHost(ru.text)
+					how = append(how, fmt.Sprintf("AddHost(%q)", ru.text))
 				}
 			}
 		}
@@ -301,7 +315,16 @@ func TestVerif_C53(t *testing.T) {
 		addIP(c53Addr(c, false), "random-ipv4")
 		addIP(c53Addr(c, true), "random-ipv6")
 
+		dotted := map[string]bool{}
+		for _, ru := range rules {
+			if ru.kind == c53HostDotted {
+				dotted[ru.name] = true
+			}
+		}
 		for _, tg := range targets {
+			if !tg.isIP && dotted[tg.host] {
+				continue // see c53HostDotted
+			}
 			port := []string{"80", "443", "123", "8080"}[rng.IntN(4)]
 			addr := net.JoinHostPort(tg.host, port)
 			network := []string{"tcp", "tcp4", "tcp6", "udp"}[rng.IntN(4)]
